@@ -58,6 +58,7 @@ Apply(c) ==
        [] c.k = "NFieldsLine" -> [plt EXCEPT ![cl].nfline = NF + 1]
        [] c.k = "FodFile"     -> [plt EXCEPT ![cl].fodlines[c.b].file = c.f]
        [] c.k = "FodOffset"   -> [plt EXCEPT ![cl].fodlines[c.b].off = c.off]
+       [] c.k = "FodEarly"    -> [plt EXCEPT ![cl].fodlines[c.b].early = TRUE]
        [] c.k = "BoxBound"    -> [plt EXCEPT ![cl].bounds_ok[c.b] = FALSE]
 
 GoodBoxLines == {b \in DOMAIN Lc.boxlines : Lc.boxlines[b].k = "box"}
@@ -91,6 +92,14 @@ Candidates ==
   \cup (IF K("FodOffset") THEN UNION {{[k |-> "FodOffset", b |-> b, off |-> o] :
                                           o \in (0..(IF Lc.fodlines[b].file \in ExistingFiles THEN Len(Units(Lc.fodlines[b].file)) + 1 ELSE 1))
                                                 \ {Lc.fodlines[b].off}} : b \in GoodFodLines} ELSE {})
+  \* a recorded position a few bytes before the header of a FAB that is not the first of its file, where the preceding payload
+  \* bytes read as text (not combined with displaced headers in the same file)
+  \cup (IF K("FodEarly") THEN {[k |-> "FodEarly", b |-> b] :
+                                 b \in {b \in GoodFodLines : /\ ~Lc.fodlines[b].early /\ Lc.fodlines[b].file \in ExistingFiles
+                                                             /\ Lc.fodlines[b].off > 0 /\ Lc.fodlines[b].off < Len(Units(Lc.fodlines[b].file))
+                                                             /\ Units(Lc.fodlines[b].file)[Lc.fodlines[b].off + 1].k = "H"
+                                                             /\ Units(Lc.fodlines[b].file)[Lc.fodlines[b].off].k = "D"
+                                                             /\ \A q \in HPos(Lc.fodlines[b].file) : Units(Lc.fodlines[b].file)[q + 1].sh = 0}} ELSE {})
   \cup (IF K("BoxBound") THEN {[k |-> "BoxBound", b |-> b] : b \in {b \in DOMAIN Lc.bounds_ok : Lc.bounds_ok[b]}} ELSE {})
 
 Corrupt ==
@@ -99,6 +108,7 @@ Corrupt ==
         \* RemoveData must stay inside payload
         /\ (c.k = "RemoveData" => c.pos + c.u <= Len(Units(c.f)) /\ \A q \in c.pos..(c.pos + c.u - 1) : Units(c.f)[q + 1].k = "D")
         /\ (c.k = "FabNComp" => Units(c.f)[c.pos + 1].nc + c.d >= 1)
+        /\ (c.k \in {"HeadCut", "HeadPad"} => \A b \in GoodFodLines : Lc.fodlines[b].file = c.f => ~Lc.fodlines[b].early)
         /\ plt' = Apply(c)
         /\ applied' = Append(applied, c)
   /\ UNCHANGED <<base, cl, opts, lim, nofail, pc, lvl, verdict, raised>>
